@@ -142,27 +142,27 @@ TypedA == <<Cv("int8", LInt(P7m1)), Cv("int8", LInt(N7)), Cv("int8", I(1)), Cv("
             Cv("bool", LBool(TRUE)), Cv("string", LStr(<<115>>))>>
 AllLeaves == IntsA \o FloatsA \o OthersA \o TypedA
 \* the leaves used by the unary and conversion grids in Tier 1
-CoreLeaves == <<I(0), I(1), I(-1), LInt(P7m1), LInt(P7), LInt(N7), LInt(N7m1), LInt(P8m1), LInt(P8), LInt(P16m1), LInt(P16),
-                LInt(P31m1), LInt(P31), LInt(N31m1), LInt(P32m1), LInt(P63m1), LInt(P63), LInt(N63), LInt(N63m1), LInt(P64m1), LInt(P64),
+CoreLeaves == <<I(0), I(1), I(-1), LInt(P7m1), LInt(N7), LInt(N7m1), LInt(P8m1), LInt(P16m1), LInt(P16),
+                LInt(P31m1), LInt(N31m1), LInt(P32m1), LInt(P63m1), LInt(P63), LInt(N63), LInt(N63m1), LInt(P64m1), LInt(P64),
                 LInt(P100), LInt(P511), LInt(N511), LInt(P512m1), LInt(F24p1), LInt(F53p1),
                 LFloat(Zero, 0), LFloat(Sm(1), -1), LFloat(Sm(-3), -1), LFloat(Sm(1), -1074), LFloat(Sm(1), -1075), LFloat(Sm(1), 1023), LFloat(Sm(1), 1024),
-                LFloat(Sm(1), -149), LFloat(Sm(3), -150), LFloat(MaxF32, 0), LFloat(Sm(1), 128), LFloat(Sm(1), 63), LFloat(Sm(1), 64), LFloat(F53p1, 0),
-                LFloat(F24p3, 0), LFloat(P63p1, 0), LFloat(Sm(7), 0),
-                LRune(97), LImag(Sm(1), 0), LImag(Zero, 0), LStr(<<115>>), LStr(<<116, 34, 195, 169>>), LBool(TRUE),
-                Cv("int8", LInt(N7)), Cv("uint8", LInt(P8m1)), Cv("int64", LInt(N63)), Cv("uint64", LInt(P64m1)), Cv("int32", LRune(97)),
-                Cv("float32", LFloat(MaxF32, 0)), Cv("float64", LFloat(Sm(1), 1023)), Cv("float64", LFloat(Sm(1), -1074)), Cv("float64", I(7)),
+                LFloat(Sm(1), -149), LFloat(MaxF32, 0), LFloat(Sm(1), 128), LFloat(Sm(1), 64), LFloat(F53p1, 0),
+                LFloat(P63p1, 0), LFloat(Sm(7), 0),
+                LRune(97), LImag(Sm(1), 0), LImag(Zero, 0), LStr(<<115>>), LBool(TRUE),
+                Cv("int8", LInt(N7)), Cv("uint8", LInt(P8m1)), Cv("int64", LInt(N63)), Cv("uint64", LInt(P64m1)), 
+                Cv("float32", LFloat(MaxF32, 0)), Cv("float64", LFloat(Sm(1), 1023)), Cv("float64", LFloat(Sm(1), -1074)), 
                 Cv("complex64", LImag(Sm(1), 0)), Cv("complex128", LImag(Sm(3), -1)), Cv("bool", LBool(TRUE)), Cv("string", LStr(<<115>>))>>
 ULeaves == IF Tier = 1 THEN CoreLeaves ELSE AllLeaves
 Types == <<"bool", "string", "int", "int8", "int16", "int32", "int64", "uint", "uint8", "uint16", "uint32", "uint64", "uintptr",
            "float32", "float64", "complex64", "complex128">>
 
 \* operand sets of the groups (Tier 1 = quick, Tier 2 = thorough)
-IB1 == <<I(0), I(1), I(-1), I(3), LInt(P32), LInt(P62), LInt(P63m1), LInt(N63), LInt(N63m1), LInt(P64m1),
+IB1 == <<I(0), I(-1), I(3), LInt(P32), LInt(P62), LInt(P63m1), LInt(N63), LInt(P64m1),
          LInt(P511), LInt(P512m1)>>
 IB2 == <<I(0), I(1), I(-1), I(2), I(3), I(-2), LInt(P7), LInt(N7m1), LInt(P8m1), LInt(P15m1), LInt(P16), LInt(P31m1), LInt(P31), LInt(N31), LInt(P32m1), LInt(P32p1),
          LInt(P62), LInt(P63m1), LInt(P63), LInt(P63p1), LInt(N63), LInt(N63m1), LInt(P64m1), LInt(P64), LInt(P64p1), LInt(P100), LInt(P256), LInt(P511), LInt(N511), LInt(P512m1)>>
 IB == IF Tier = 1 THEN IB1 ELSE IB2
-BB1 == <<I(0), I(1), I(-1), I(-2), LInt(P8m1), LInt(N7), LInt(N63m1), LInt(P64m1), LInt(P100)>>
+BB1 == <<I(0), I(-1), I(-2), LInt(P8m1), LInt(N7), LInt(N63m1), LInt(P100)>>
 BB == IF Tier = 1 THEN BB1 ELSE BB1 \o <<LInt(P63), LInt(N63), LInt(P511), LInt(N511), LRune(97), LFloat(Sm(1), 0)>>
 MX1 == <<I(7), LRune(97), LFloat(Sm(3), -1), LFloat(Sm(7), 0), LFloat(Sm(1), 1024), LFloat(Zero, 0),
          LImag(Sm(3), -1), LStr(<<115>>), LBool(TRUE),
@@ -172,7 +172,7 @@ MX2 == <<I(0), I(-1), LFloat(Sm(1), -1), LFloat(Sm(1), -1074), LImag(Sm(1), 0), 
          Cv("uint8", LInt(P8m1)), Cv("int64", LInt(N63)), Cv("uint64", LInt(P64m1)), Cv("float32", LFloat(MaxF32, 0)), Cv("float64", LFloat(Sm(1), 1023)),
          Cv("float64", LFloat(Sm(1), -1074)), Cv("complex64", LImag(Sm(1), 0)), Cv("string", LStr(<<115>>)), Cv("bool", LBool(TRUE))>>
 MX == IF Tier = 1 THEN MX1 ELSE MX1 \o MX2
-MXs == <<I(7), LRune(97), LFloat(Sm(3), -1), LFloat(Sm(7), 0), LImag(Sm(1), 0), LStr(<<115>>), LBool(TRUE), Cv("uint8", LInt(P8m1)), Cv("float64", I(7))>>
+MXs == <<I(7), LRune(97), LFloat(Sm(3), -1), LFloat(Sm(7), 0), LImag(Sm(1), 0), LStr(<<115>>), Cv("uint8", LInt(P8m1)), Cv("float64", I(7))>>
 \* typed constants of one type (boundary values of that type)
 TI8 == <<Cv("int8", LInt(P7m1)), Cv("int8", LInt(N7)), Cv("int8", I(-1)), Cv("int8", I(1)), Cv("int8", I(0))>>
 TU8 == <<Cv("uint8", LInt(P8m1)), Cv("uint8", I(0)), Cv("uint8", I(1)), Cv("uint8", I(2))>>
@@ -184,7 +184,7 @@ TC == <<Cv("complex128", LImag(Sm(3), -1)), Cv("complex128", I(2)), Cv("complex1
 TC64 == <<Cv("complex64", LImag(Sm(1), 0)), Cv("complex64", LFloat(Sm(3), -1)), Cv("complex64", Bin("+", I(1), LImag(Sm(1), 0)))>>
 TX == <<Cv("int8", I(1)), Cv("uint8", I(1)), Cv("int32", I(1)), Cv("int", I(1)), Cv("float32", I(1)), Cv("float64", I(1)), Cv("complex128", I(1)), Cv("string", LStr(<<115>>))>>
 LB == <<LBool(TRUE), LBool(FALSE), Cv("bool", LBool(TRUE)), I(1), LStr(<<115>>)>>
-SL1 == <<I(0), I(1), I(-1), LInt(P8m1), LInt(P63), LInt(P511), LFloat(Sm(1), 0), LFloat(Sm(3), -1), LRune(97), LImag(Zero, 0),
+SL1 == <<I(0), I(1), I(-1), LInt(P63), LInt(P511), LFloat(Sm(1), 0), LFloat(Sm(3), -1), LRune(97), LImag(Zero, 0),
          LStr(<<115>>), Cv("int8", I(1)), Cv("uint8", LInt(P8m1)), Cv("int64", I(-1)), Cv("float64", I(7))>>
 SL == IF Tier = 1 THEN SL1 ELSE SL1 \o <<LInt(N63), LFloat(Sm(1), 64), LFloat(Sm(1), 1024), LImag(Sm(1), 0), Cv("int8", I(-1)), Cv("uint64", I(1)), Cv("int", I(7))>>
 SC1 == <<I(0), I(1), I(7), I(8), I(63), I(64), I(511), I(512), I(-1), LFloat(Sm(1), 0), LFloat(Sm(3), -1), LRune(48), LBool(TRUE),
@@ -208,7 +208,8 @@ GBin(ops, A, B) == [kind |-> "bin", ops |-> ops, A |-> A, B |-> B]
 Groups == <<GUn(UnOpsS, ULeaves), GCv(ULeaves), GBin(ArithOpsS, IB, IB), GBin(BitOpsS, BB, BB),
             GBin(MixedOpsA, MX, MX), GBin(MixedOpsB, MXs, MXs),
             GBin(TypedOpsS, TI8, TI8), GBin(TypedOpsS, TU8, TU8), GBin(TypedOpsS, TI64, TI64), GBin(TypedOpsS, TU64, TU64),
-            GBin(TypedOpsS, TF32, TF32), GBin(TypedOpsS, TF64, TF64), GBin(TypedOpsS, TC, TC), GBin(TypedOpsS, TC64, TC64),
+            GBin(TypedOpsS, TF32, TF32), GBin(TypedOpsS, TF64, TF64), GBin(TypedOpsS, TC, TC),
+            GBin(TypedOpsS, IF Tier = 1 THEN <<TC64[3]>> ELSE TC64, TC64),
             GBin(<<"%", "==">>, TX, TX), GBin(LogicOpsS, LB, LB), GBin(ShiftOpsS, SL, SC)>>
          \o (IF Tier = 1 THEN <<>> ELSE <<GBin(CmpOpsS, MX1, MX1), GBin(<<"-", "%", "&^", "|", "!=", "<=", ">", "||">>, MX1, MX1)>>)
 GN(g) == IF g.kind = "bin" THEN Len(g.ops) * Len(g.A) * Len(g.B) ELSE Len(g.ops) * Len(g.A)
